@@ -110,291 +110,595 @@ Qed.
 
 Definition wf_path (p : path) : Prop := wf_steps (p_steps p) /\ wf_path_shape p = true.
 
-Lemma compile_first : forall sp st r, exists m1 rest,
-  compile_steps ((sp, st) :: r) = m1 :: rest /\ is_user m1 = true /\
-  (next_is_desc r = false -> is_any m1 = false).
+(** * selection by a prefix of the path *)
+Definition start (D : doc) (h : head) (a : nat) : list nat :=
+  match h with HRel => [a] | HAbs => [root_of D a] | HFunc fs => filter fs (nodes D) end.
+Definition Sel (D : doc) (h : head) (Q : list (sep * sstep)) (p : nat) : Prop :=
+  exists a, In a (aos D p) /\ In p (sel_steps D (start D h a) Q).
+
+Lemma sel_path_start : forall D h Q a, sel_path D (mkPath h Q) a = sel_steps D (start D h a) Q.
+Proof. intros D [| |fs] Q a; reflexivity. Qed.
+
+Lemma sel_steps_app : forall D cs Q S, sel_steps D cs (Q ++ S) = sel_steps D (sel_steps D cs Q) S.
+Proof. intros. unfold sel_steps. apply fold_left_app. Qed.
+
+Lemma first_sep_app : forall (Q S : list (sep * sstep)) sp st r, S = (sp, st) :: r -> Q = [] ->
+  match Q ++ S with (s, _) :: _ => s | [] => SChild end = sp.
+Proof. intros. subst. reflexivity. Qed.
+
+(* a node selected from the context a has a among its ancestors-or-self *)
+Lemma sel_rel_anc : forall D Q a q, wf_doc D = true -> In q (sel_steps D [a] Q) -> In a (aos D q).
 Proof.
-  intros sp st r. rewrite compile_steps_cons.
-  destruct (s_attr st).
-  - eexists; eexists; split; [reflexivity|split; [reflexivity|reflexivity]].
-  - destruct (next_is_desc r).
-    + eexists; eexists; split; [reflexivity|split; [reflexivity|discriminate]].
-    + eexists; eexists; split; [reflexivity|split; [reflexivity|reflexivity]].
+  intros D Q a q W H. destruct Q as [|[sp st] r].
+  - destruct H as [H|[]]. subst. apply aos_self.
+  - apply (sel_steps_reach D ((sp, st) :: r) W ltac:(discriminate)) in H.
+    destruct H as [c [R [p [Hp Hin]]]]. pose proof (reach_aos D _ q c R) as Hc.
+    pose proof (aos_parent_in D c q p Hc Hp) as Hpq.
+    destruct sp; cbn [expand] in Hin.
+    + destruct Hin as [E|[]]. subst. exact Hpq.
+    + cbn [flat_map] in Hin. rewrite app_nil_r in Hin. apply in_dos in Hin.
+      destruct Hin as [_ [E|[_ E]]]; [subst; exact Hpq|]. eapply aos_trans; eauto.
 Qed.
 
-Lemma all_child_next : forall r, all_child r = true -> next_is_desc r = false.
-Proof. intros [|[[|] st] r] H; try reflexivity. discriminate. Qed.
-
-(** * a whole path *)
-Lemma below_root_top : forall D e c, wf_doc D = true -> below_root D e = true ->
-  In c (aos D e) -> parent D c <> None -> c = e.
+Lemma start_anchor : forall D h Q a n q, wf_doc D = true ->
+  In a (aos D n) -> In q (aos D n) -> In q (sel_steps D (start D h a) Q) ->
+  exists a', In a' (aos D q) /\ In q (sel_steps D (start D h a') Q).
 Proof.
-  intros D e c W B H Hc. unfold below_root in B.
-  destruct (parent D e) as [p|] eqn:Hp; [|discriminate].
-  apply aos_cases in H. destruct H as [H|[q [Hq H]]]; [exact H|].
-  rewrite Hp in Hq. inversion Hq. subst q. exfalso.
-  assert (Hpl : p < length D).
-  { pose proof (parent_lt _ _ _ Hp). pose proof (parent_valid _ _ _ Hp). lia. }
-  apply (root_kind D p W Hpl) in B.
-  rewrite (aos_eq D p), B in H. destruct H as [H|[]]. subst c. congruence.
+  intros D h Q a n q W Ha Hq H. destruct h as [| |fs]; cbn [start] in *.
+  - exists a. split; [eapply sel_rel_anc; eauto|exact H].
+  - exists q. split; [apply aos_self|].
+    rewrite (root_of_anc D n q Hq). rewrite (root_of_anc D n a Ha) in H. exact H.
+  - exists q. split; [apply aos_self|exact H].
 Qed.
 
-Lemma desc_no_next_all_child : forall r, desc_then_child r = true -> next_is_desc r = false ->
-  all_child r = true.
-Proof. intros [|[[|] st] r] G H; try reflexivity; try discriminate. exact G. Qed.
+Definition LeftOK (D : doc) (h : head) (Q : list (sep * sstep)) (sp : sep) (c : nat) : Prop :=
+  exists p, parent D c = Some p /\
+            match sp with
+            | SChild => Sel D h Q p
+            | SDesc => exists q, In q (aos D p) /\ Sel D h Q q
+            end.
 
-Lemma snd_root_retry : forall D c F,
-  snd (root_retry D c F) = true <-> exists e, find (below_root D) (aos D c) = Some e /\ F e = true.
+(* the selection by Q ++ S, split at the first step of S *)
+Lemma sel_split : forall D h Q sp st r n, wf_doc D = true ->
+  (Sel D h (Q ++ (sp, st) :: r) n <->
+   exists c, reach D ((sp, st) :: r) n c /\ LeftOK D h Q sp c).
 Proof.
-  intros D c F. unfold root_retry. destruct (find (below_root D) (aos D c)) as [e|].
-  - destruct (F e) eqn:Fe; cbn [snd]; split.
-    + intros _. exists e. auto.
-    + reflexivity.
+  intros D h Q sp st r n W. unfold Sel, LeftOK.
+  assert (Hne : (sp, st) :: r <> []) by discriminate. split.
+  - intros [a [Ha H]]. rewrite sel_steps_app in H.
+    apply (sel_steps_reach D _ W Hne) in H. destruct H as [c [R [p [Hp Hin]]]].
+    exists c. split; [exact R|]. exists p. split; [exact Hp|].
+    pose proof (aos_parent_in D c n p (reach_aos D _ n c R) Hp) as Hpn.
+    destruct sp; cbn [expand] in Hin.
+    + apply (start_anchor D h Q a n p W Ha Hpn Hin).
+    + apply in_flat_map in Hin. destruct Hin as [q [Hq Hd]].
+      assert (Hqp : In q (aos D p)).
+      { apply in_dos in Hd. destruct Hd as [_ [E|[_ E]]]; [subst; apply aos_self|exact E]. }
+      exists q. split; [exact Hqp|].
+      apply (start_anchor D h Q a n q W Ha (aos_trans D q p n Hqp Hpn) Hq).
+  - intros [c [R [p [Hp Hl]]]].
+    pose proof (aos_parent_in D c n p (reach_aos D _ n c R) Hp) as Hpn.
+    destruct sp.
+    + destruct Hl as [a [Ha H]]. exists a. split; [eapply aos_trans; eauto|].
+      rewrite sel_steps_app. apply (sel_steps_reach D _ W Hne).
+      exists c. split; [exact R|]. exists p. split; [exact Hp|exact H].
+    + destruct Hl as [q [Hqp [a [Ha H]]]]. exists a.
+      split; [eapply aos_trans; [exact Ha|eapply aos_trans; eauto]|].
+      rewrite sel_steps_app. apply (sel_steps_reach D _ W Hne).
+      exists c. split; [exact R|]. exists p. split; [exact Hp|].
+      cbn [expand]. apply in_flat_map. exists q. split; [exact H|]. apply in_dos. split.
+      * pose proof (parent_lt _ _ _ Hp). pose proof (parent_valid _ _ _ Hp). lia.
+      * right. split; [|exact Hqp]. apply container_not_attr. apply (wf_parent_container D c p W Hp).
+Qed.
+
+(* one more step on the right of the prefix *)
+Lemma sel_snoc : forall D h Q sp st x, wf_doc D = true ->
+  (Sel D h (Q ++ [(sp, st)]) x <-> sstep_ok D st x /\ LeftOK D h Q sp x).
+Proof.
+  intros D h Q sp st x W. rewrite (sel_split D h Q sp st [] x W). cbn [reach]. split.
+  - intros [c [[Hok E] Hl]]. subst c. auto.
+  - intros [Hok Hl]. exists x. auto.
+Qed.
+
+Lemma sel_last_attr : forall D h Q sp st x, wf_doc D = true -> s_attr st = true ->
+  Sel D h (Q ++ [(sp, st)]) x -> is_attr (kind_of D x) = true.
+Proof.
+  intros D h Q sp st x W At H. apply (sel_snoc D h Q sp st x W) in H. destruct H as [[p [Hp Hin]] _].
+  unfold spec_step in Hin. apply apply_preds_sub in Hin. rewrite At in Hin.
+  apply filter_In in Hin. destruct Hin as [Hin _]. apply in_attributes in Hin. apply Hin.
+Qed.
+
+(** * the compiled steps to the left of a step *)
+Definition is_desc (sp : sep) : bool := match sp with SDesc => true | SChild => false end.
+
+Definition mk (D : doc) (acc : list mstep) (st : sstep) (nd : bool) : mstep :=
+  if s_attr st then MAttr (s_test st) (s_preds st)
+  else if nd then MAny (s_test st) (s_preds st) (left_check D acc (last_step acc))
+  else MImm (s_test st) (s_preds st).
+
+(* compile_steps on a prefix whose last step is followed by '//' (nd) or not *)
+Fixpoint cs_ctx (D : doc) (acc : list mstep) (Q : list (sep * sstep)) (nd : bool) : list mstep :=
+  match Q with
+  | [] => []
+  | (_, st) :: r =>
+      let m := mk D acc st (match r with [] => nd | _ => next_is_desc r end) in
+      m :: cs_ctx D (acc ++ [m]) r nd
+  end.
+
+Lemma last_step_snoc : forall l m, last_step (l ++ [m]) = Some m.
+Proof. intros. unfold last_step. rewrite rev_app_distr. reflexivity. Qed.
+
+Lemma compile_steps_cons : forall D acc sp st r,
+  compile_steps D acc (last_step acc) ((sp, st) :: r) =
+  mk D acc st (next_is_desc r) ::
+  compile_steps D (acc ++ [mk D acc st (next_is_desc r)])
+                (last_step (acc ++ [mk D acc st (next_is_desc r)])) r.
+Proof. intros. rewrite last_step_snoc. reflexivity. Qed.
+
+Lemma compile_steps_cs : forall D Q acc,
+  compile_steps D acc (last_step acc) Q = cs_ctx D acc Q false.
+Proof.
+  intros D Q. induction Q as [|[sp st] r IH]; intro acc; [reflexivity|].
+  rewrite compile_steps_cons. cbn [cs_ctx].
+  assert (E : next_is_desc r = match r with [] => false | _ => next_is_desc r end)
+    by (destruct r; reflexivity).
+  rewrite <- E. f_equal. apply IH.
+Qed.
+
+Lemma next_is_desc_snoc : forall (Q : list (sep * sstep)) s st,
+  next_is_desc (Q ++ [(s, st)]) = match Q with [] => is_desc s | _ => next_is_desc Q end.
+Proof. intros [|[s1 st1] Q] s st; [destruct s; reflexivity|reflexivity]. Qed.
+
+Lemma cs_ctx_snoc : forall D Q a s st nd,
+  cs_ctx D a (Q ++ [(s, st)]) nd =
+  cs_ctx D a Q (is_desc s) ++ [mk D (a ++ cs_ctx D a Q (is_desc s)) st nd].
+Proof.
+  intros D Q. induction Q as [|[s1 st1] Q IH]; intros a s st nd.
+  - cbn [app cs_ctx]. rewrite app_nil_r. reflexivity.
+  - cbn [app cs_ctx].
+    assert (E : match Q ++ [(s, st)] with [] => nd | _ => next_is_desc (Q ++ [(s, st)]) end
+                = match Q with [] => is_desc s | _ => next_is_desc Q end).
+    { destruct Q as [|[s2 st2] Q2]; [destruct s; reflexivity|reflexivity]. }
+    rewrite E. rewrite IH. cbn [app]. rewrite <- app_assoc. reflexivity.
+Qed.
+
+Lemma snoc_cases : forall (Q : list (sep * sstep)), Q = [] \/ exists Q0 s st, Q = Q0 ++ [(s, st)].
+Proof.
+  intros Q. induction Q as [|[s st] Q0 _] using rev_ind; [left; reflexivity|].
+  right. exists Q0, s, st. reflexivity.
+Qed.
+
+Lemma mk_user : forall D acc st nd, is_user (mk D acc st nd) = true.
+Proof. intros. unfold mk. destruct (s_attr st); [|destruct nd]; reflexivity. Qed.
+
+Lemma next_is_desc_cons : forall sp (st : sstep) r, next_is_desc ((sp, st) :: r) = is_desc sp.
+Proof. intros [|] st r; reflexivity. Qed.
+
+Lemma head_steps_app : forall h (Q S : list (sep * sstep)), Q <> [] ->
+  head_steps h (Q ++ S) = head_steps h Q.
+Proof.
+  intros h [|[s st] Q] S Hne; [congruence|]. unfold head_steps. cbn [app].
+  rewrite !next_is_desc_cons. reflexivity.
+Qed.
+
+(* what a user step at the front can return *)
+Lemma user_result : forall D m rest n, is_user m = true ->
+  (exists g, step_pattern D (m :: rest) n = (Some g, true)) \/ step_pattern D (m :: rest) n = (None, false).
+Proof.
+  intros D m rest n U.
+  assert (B : forall c, (exists g, (let (c', s) := body D m rest c in ((if s then c' else None), s)) = (Some g, true))
+                        \/ (let (c', s) := body D m rest c in ((if s then c' else None), s)) = (None, false)).
+  { intros c. destruct m; try discriminate; cbn [body].
+    - destruct (step_ok D true t ps c); [left; eexists; reflexivity|right; reflexivity].
+    - destruct (is_attr (kind_of D c)); [right; reflexivity|].
+      destruct (find _ (aos D c)); [left; eexists; reflexivity|right; reflexivity].
+    - destruct (step_ok D false t ps c); [left; eexists; reflexivity|right; reflexivity]. }
+  destruct rest as [|m2 rest'].
+  - rewrite step_pattern_one. apply B.
+  - rewrite step_pattern_cons2.
+    destruct (step_pattern D (m2 :: rest') n) as [[c|] [|]]; try (right; reflexivity).
+    destruct (if is_anyfn m2 then Some c else parent D c); [apply B|right; reflexivity].
+Qed.
+
+(* the body of a compiled user step, in terms of step_ok *)
+Lemma body_mk_plain : forall D acc st rest c, (s_attr st = true \/ True) ->
+  body D (mk D acc st false) rest c = (Some c, step_ok D (s_attr st) (s_test st) (s_preds st) c).
+Proof. intros D acc st rest c _. unfold mk. destruct (s_attr st); reflexivity. Qed.
+
+Lemma body_mk_attr : forall D acc st nd rest c, s_attr st = true ->
+  body D (mk D acc st nd) rest c = (Some c, step_ok D true (s_test st) (s_preds st) c).
+Proof. intros D acc st nd rest c At. unfold mk. rewrite At. reflexivity. Qed.
+
+Definition anyF (D : doc) (acc : list mstep) (st : sstep) (a : nat) : bool :=
+  negb (is_root (kind_of D a)) && child_test (s_test st) (kind_of D a)
+  && do_preds (found_index D false (s_test st) (s_preds st) a) (s_preds st) a true
+  && left_ok D (left_check D acc (last_step acc)) a.
+
+Lemma body_mk_any : forall D acc st rest c, s_attr st = false ->
+  body D (mk D acc st true) rest c =
+  if is_attr (kind_of D c) then (Some c, false)
+  else match find (anyF D acc st) (aos D c) with
+       | Some a => (Some a, true)
+       | None => (None, false)
+       end.
+Proof. intros D acc st rest c At. unfold mk. rewrite At. reflexivity. Qed.
+
+Lemma anyF_step_ok : forall D acc st a, s_attr st = false -> is_attr (kind_of D a) = false ->
+  anyF D acc st a = step_ok D (s_attr st) (s_test st) (s_preds st) a
+                    && left_ok D (left_check D acc (last_step acc)) a.
+Proof. intros D acc st a At Ha. unfold anyF, step_ok. rewrite At, Ha. reflexivity. Qed.
+
+(** * soundness of the compiled steps: whatever the matcher finds is a chain *)
+Lemma gen_sound : forall D S, wf_doc D = true -> wf_steps S -> S <> [] -> forall acc n g,
+  step_pattern D (compile_steps D acc (last_step acc) S) n = (Some g, true) -> reach D S n g.
+Proof.
+  intros D S W. induction S as [|[sp st] r IH]; intros Wf Hne acc n g H; [congruence|].
+  inversion_clear Wf as [|? ? Wst Wr]. cbn [snd] in Wst.
+  rewrite compile_steps_cons in H.
+  set (m := mk D acc st (next_is_desc r)) in *.
+  destruct r as [|[sp2 st2] r'].
+  - cbn [compile_steps] in H. rewrite step_pattern_one in H. subst m. cbn [next_is_desc] in H.
+    rewrite body_mk_plain in H by auto.
+    destruct (step_ok D (s_attr st) (s_test st) (s_preds st) n) eqn:S0; [|discriminate].
+    inversion H. subst g. cbn [reach]. split; [apply (step_ok_spec D st n W Wst); exact S0|reflexivity].
+  - specialize (IH Wr ltac:(discriminate) (acc ++ [m]) n).
+    rewrite compile_steps_cons in H, IH.
+    set (m2 := mk D (acc ++ [m]) st2 (next_is_desc r')) in *.
+    rewrite step_pattern_cons2, (user_not_anyfn m2 (mk_user _ _ _ _)) in H.
+    destruct (step_pattern D (m2 :: _) n) as [[c2|] [|]] eqn:R; try discriminate.
+    destruct (parent D c2) as [c'|] eqn:Hp; [|discriminate].
+    pose proof (IH c2 eq_refl) as R2.
+    assert (Plain : step_ok D (s_attr st) (s_test st) (s_preds st) c' = true -> g = c' ->
+              reach D ((sp, st) :: (sp2, st2) :: r') n g).
+    { intros S0 Eg. subst g. cbn [reach]. split; [apply (step_ok_spec D st c' W Wst); exact S0|].
+      exists c2. split; [exact R2|]. exists c'. split; [exact Hp|].
+      destruct sp2; [reflexivity|apply aos_self]. }
+    subst m. rewrite next_is_desc_cons in H.
+    destruct (s_attr st) eqn:At.
+    + rewrite body_mk_attr in H by exact At.
+      destruct (step_ok D true (s_test st) (s_preds st) c') eqn:S0; [|discriminate].
+      inversion H. apply Plain; auto.
+    + destruct sp2; cbn [is_desc] in H.
+      * rewrite body_mk_plain in H by auto. rewrite At in H.
+        destruct (step_ok D false (s_test st) (s_preds st) c') eqn:S0; [|discriminate].
+        inversion H. apply Plain; auto.
+      * rewrite body_mk_any in H by exact At.
+        destruct (is_attr (kind_of D c')) eqn:Ac; [discriminate|].
+        destruct (find (anyF D acc st) (aos D c')) as [a|] eqn:Fd; [|discriminate].
+        inversion H. subst a. apply find_some in Fd. destruct Fd as [Hin Fg].
+        assert (Hna : is_attr (kind_of D g) = false).
+        { destruct (aos_container D g c' W Hin) as [E|E]; [subst; exact Ac|].
+          apply container_not_attr. exact E. }
+        rewrite (anyF_step_ok D acc st g At Hna) in Fg. apply andb_prop in Fg. destruct Fg as [S0 _].
+        cbn [reach]. split; [apply (step_ok_spec D st g W Wst); exact S0|].
+        exists c2. split; [exact R2|]. exists c'. split; [exact Hp|exact Hin].
+Qed.
+
+(** * completeness: by induction on the steps, with the theorem for every proper prefix at hand *)
+Section Path.
+Variable D : doc.
+Hypothesis W : wf_doc D = true.
+Variable h : head.
+
+Definition Full (Q : list (sep * sstep)) : Prop :=
+  forall p, p < length D -> (match_path D (mkPath h Q) p = true <-> Sel D h Q p).
+
+Definition acc_of (P Q : list (sep * sstep)) (sp : sep) : list mstep :=
+  head_steps h P ++ cs_ctx D (head_steps h P) Q (is_desc sp).
+
+Lemma acc_left_none : forall Q sp st r,
+  last_step (acc_of (Q ++ (sp, st) :: r) Q sp) = None -> h = HRel /\ Q = [].
+Proof.
+  intros Q sp st r H. unfold acc_of in H. destruct (snoc_cases Q) as [E|[Q0 [s0 [st0 E]]]].
+  - subst Q. cbn [cs_ctx app] in H. rewrite app_nil_r in H. split; [|reflexivity].
+    unfold head_steps in H. destruct h as [| |fs]; [reflexivity| |];
+      destruct (next_is_desc ((sp, st) :: r)); discriminate.
+  - subst Q. rewrite cs_ctx_snoc, app_assoc, last_step_snoc in H. discriminate.
+Qed.
+
+Lemma acc_left_any : forall Q sp st r l,
+  last_step (acc_of (Q ++ (sp, st) :: r) Q sp) = Some l -> any_like l = true -> sp = SDesc.
+Proof.
+  intros Q sp st r l H A. unfold acc_of in H. destruct (snoc_cases Q) as [E|[Q0 [s0 [st0 E]]]].
+  - subst Q. cbn [cs_ctx app] in H. rewrite app_nil_r in H.
+    unfold head_steps in H. rewrite next_is_desc_cons in H.
+    destruct sp; [|reflexivity]. cbn [is_desc] in H.
+    destruct h as [| |fs]; inversion H; subst l; discriminate.
+  - subst Q. rewrite cs_ctx_snoc, app_assoc, last_step_snoc in H. inversion H. subst l.
+    unfold mk in A. destruct (s_attr st0); [discriminate|].
+    destruct sp; [discriminate|reflexivity].
+Qed.
+
+Lemma acc_left_exact : forall Q sp st r l,
+  last_step (acc_of (Q ++ (sp, st) :: r) Q sp) = Some l -> any_like l = false ->
+  acc_of (Q ++ (sp, st) :: r) Q sp = compile D (mkPath h Q) /\
+  (Q = [] -> h <> HRel) /\
+  (sp = SChild \/ exists Q0 s0 st0, Q = Q0 ++ [(s0, st0)] /\ s_attr st0 = true).
+Proof.
+  intros Q sp st r l H A. unfold acc_of in *. destruct (snoc_cases Q) as [E|[Q0 [s0 [st0 E]]]].
+  - subst Q. cbn [cs_ctx app] in *. rewrite app_nil_r in *.
+    unfold compile, head_steps in *. cbn [p_head p_steps compile_steps next_is_desc] in *.
+    destruct sp; cbn [is_desc] in *.
+    + split; [rewrite app_nil_r; reflexivity|]. split; [|left; reflexivity].
+      intros _ E. subst h. discriminate.
+    + destruct h as [| |fs]; inversion H; subst l; discriminate.
+  - subst Q. rewrite cs_ctx_snoc, app_assoc, last_step_snoc in H. inversion H. subst l. clear H.
+    split; [|split; [intro E; destruct Q0; discriminate|]].
+    + unfold compile. cbn [p_head p_steps]. rewrite compile_steps_cs.
+      rewrite (head_steps_app h (Q0 ++ [(s0, st0)]) ((sp, st) :: r)) in *
+        by (destruct Q0; discriminate).
+      rewrite !cs_ctx_snoc. do 2 f_equal.
+      unfold mk in *. destruct (s_attr st0); [reflexivity|].
+      destruct sp; [reflexivity|discriminate].
+    + unfold mk in A. destruct (s_attr st0) eqn:At.
+      * right. exists Q0, s0, st0. auto.
+      * left. destruct sp; [reflexivity|discriminate].
+Qed.
+
+Lemma sel_rel_nil : forall p, Sel D HRel [] p.
+Proof. intros p. exists p. split; [apply aos_self|left; reflexivity]. Qed.
+
+Lemma sstep_ok_parent : forall st c, sstep_ok D st c -> exists p, parent D c = Some p.
+Proof. intros st c [p [Hp _]]. exists p. exact Hp. Qed.
+
+Lemma gen_complete : forall P, wf_steps P ->
+  (forall Q S, P = Q ++ S -> S <> [] -> (Q = [] -> h <> HRel) -> Full Q) ->
+  forall S Q sp st r, P = Q ++ S -> S = (sp, st) :: r ->
+  forall n,
+  (exists c, reach D S n c /\ LeftOK D h Q sp c) ->
+  exists g, step_pattern D (compile_steps D (acc_of P Q sp) (last_step (acc_of P Q sp)) S) n = (Some g, true)
+            /\ LeftOK D h Q sp g.
+Proof.
+  intros P Wf IHfull S. induction S as [|x r IH]; intros Q sp st r0 EP ES n Hex; [discriminate|].
+  inversion ES. subst x r0. clear ES.
+  assert (WfS : wf_steps ((sp, st) :: r)).
+  { unfold wf_steps in *. rewrite EP in Wf. apply Forall_app in Wf. apply Wf. }
+  inversion_clear WfS as [|? ? Wst Wr]. cbn [snd] in Wst.
+  set (acc := acc_of P Q sp) in *.
+  rewrite compile_steps_cons.
+  set (m := mk D acc st (next_is_desc r)) in *.
+  destruct Hex as [c [R HL]].
+  destruct r as [|[sp' st'] r'].
+  - (* the last step *)
+    cbn [reach] in R. destruct R as [Hok E]. subst c.
+    cbn [compile_steps]. rewrite step_pattern_one. subst m. cbn [next_is_desc].
+    rewrite body_mk_plain by auto.
+    apply (step_ok_spec D st n W Wst) in Hok. rewrite Hok. exists n. auto.
+  - cbn [reach] in R. destruct R as [Hok [c2 [R2 [p2 [Hp2 Hrel]]]]].
+    (* the rest, with one more step on its left *)
+    assert (EP' : P = (Q ++ [(sp, st)]) ++ (sp', st') :: r') by (rewrite <- app_assoc; exact EP).
+    assert (Eacc : acc_of P (Q ++ [(sp, st)]) sp' = acc ++ [m]).
+    { unfold acc_of, acc, m. rewrite cs_ctx_snoc, next_is_desc_cons, app_assoc. reflexivity. }
+    assert (Hex' : exists c2, reach D ((sp', st') :: r') n c2 /\ LeftOK D h (Q ++ [(sp, st)]) sp' c2).
+    { exists c2. split; [exact R2|]. exists p2. split; [exact Hp2|]. destruct sp'.
+      - subst p2. apply (sel_snoc D h Q sp st c W). auto.
+      - exists c. split; [exact Hrel|]. apply (sel_snoc D h Q sp st c W). auto. }
+    destruct (IH (Q ++ [(sp, st)]) sp' st' r' EP' eq_refl n Hex') as [g2 [Hg2 HL2]].
+    rewrite Eacc in Hg2. clear IH Hex'.
+    rewrite compile_steps_cons in Hg2 |- *.
+    set (m2 := mk D (acc ++ [m]) st' (next_is_desc r')) in *.
+    rewrite step_pattern_cons2, (user_not_anyfn m2 (mk_user _ _ _ _)), Hg2.
+    destruct HL2 as [pg [Hpg HS]]. rewrite Hpg.
+    subst m. rewrite next_is_desc_cons.
+    destruct sp'; cbn [is_desc].
+    + (* '/': the step must hold at the parent *)
+      apply (sel_snoc D h Q sp st pg W) in HS. destruct HS as [Hok' HL'].
+      rewrite body_mk_plain by auto.
+      apply (step_ok_spec D st pg W Wst) in Hok'. rewrite Hok'. exists pg. auto.
+    + (* '//': some ancestor-or-self q of the parent *)
+      destruct HS as [q [Hq HS]]. apply (sel_snoc D h Q sp st q W) in HS. destruct HS as [Hokq HLq].
+      destruct (wf_parent_container D g2 pg W Hpg) as [Hcont _].
+      assert (Hqna : is_attr (kind_of D q) = false).
+      { destruct (aos_container D q pg W Hq) as [E|E]; [subst|]; apply container_not_attr; assumption. }
+      destruct (s_attr st) eqn:At.
+      { exfalso. destruct Hokq as [pq [Hpq Hin]]. unfold spec_step in Hin. apply apply_preds_sub in Hin.
+        rewrite At in Hin. apply filter_In in Hin. destruct Hin as [Hin _]. apply in_attributes in Hin.
+        destruct Hin as [_ Hin]. congruence. }
+      rewrite body_mk_any by exact At. rewrite (container_not_attr _ Hcont).
+      (* every accepted ancestor is not an attribute *)
+      assert (NA : forall a, In a (aos D pg) -> is_attr (kind_of D a) = false).
+      { intros a Ha. destruct (aos_container D a pg W Ha) as [E|E]; [subst|]; apply container_not_attr; assumption. }
+      assert (Sq : step_ok D (s_attr st) (s_test st) (s_preds st) q = true)
+        by (apply (step_ok_spec D st q W Wst); exact Hokq).
+      (* what the left check means *)
+      assert (Left : left_ok D (left_check D acc (last_step acc)) q = true /\
+                     (forall g, In q (aos D g) -> sstep_ok D st g ->
+                                left_ok D (left_check D acc (last_step acc)) g = true -> LeftOK D h Q sp g)).
+      { destruct (last_step acc) as [l|] eqn:El.
+        - destruct (any_like l) eqn:Al.
+          + (* the step to the left can match any ancestor: the nearest one is good enough *)
+            assert (Esp : sp = SDesc).
+            { unfold acc in El. rewrite EP in El. eapply acc_left_any; eauto. }
+            subst sp. unfold left_check. rewrite Al. split; [reflexivity|].
+            intros g Hqg Hokg _. destruct (sstep_ok_parent st g Hokg) as [pgg Hpgg].
+            exists pgg. split; [exact Hpgg|].
+            destruct HLq as [pq [Hpq [q1 [Hq1 HS1]]]]. exists q1. split; [|exact HS1].
+            apply aos_cases in Hqg. destruct Hqg as [E|[x [Hx Hqx]]].
+            * subst g. rewrite Hpq in Hpgg. inversion Hpgg. subst. exact Hq1.
+            * rewrite Hpgg in Hx. inversion Hx. subst x.
+              eapply aos_trans; [exact Hq1|]. eapply aos_parent_in; eauto.
+          + (* the step to the left is exact: stepPattern is re-entered on the steps to the left *)
+            assert (Hex : acc = compile D (mkPath h Q) /\ (Q = [] -> h <> HRel) /\
+                          (sp = SChild \/ exists Q0 s0 st0, Q = Q0 ++ [(s0, st0)] /\ s_attr st0 = true)).
+            { unfold acc in El |- *. rewrite EP in El |- *. eapply acc_left_exact; eauto. }
+            destruct Hex as [Eacc' [HQ Hsp]].
+            pose proof (IHfull Q ((sp, st) :: (SDesc, st') :: r') EP ltac:(discriminate) HQ) as FQ.
+            unfold left_check. rewrite Al. cbn [left_ok].
+            assert (Chk : forall x px, parent D x = Some px ->
+                          (snd (step_pattern D acc px) = true <-> Sel D h Q px)).
+            { intros x px Hpx. rewrite Eacc'. apply FQ.
+              pose proof (parent_lt _ _ _ Hpx). pose proof (parent_valid _ _ _ Hpx). lia. }
+            assert (NoDesc : sp = SDesc -> forall x px, parent D x = Some px -> Sel D h Q px -> False).
+            { intros Esp x px Hpx HSx. destruct Hsp as [E|[Q0 [s0 [st0 [EQ At0]]]]]; [congruence|].
+              subst Q. apply (sel_last_attr D h Q0 s0 st0 px W At0) in HSx.
+              destruct (wf_parent_container D x px W Hpx) as [Hc _].
+              apply container_not_attr in Hc. congruence. }
+            split.
+            * destruct HLq as [pq [Hpq HSq]]. rewrite Hpq. destruct sp.
+              -- apply (Chk q pq Hpq). exact HSq.
+              -- exfalso. destruct HSq as [q1 [Hq1 HS1]].
+                 destruct Hsp as [E|[Q0 [s0 [st0 [EQ At0]]]]]; [discriminate|]. subst Q.
+                 apply (sel_last_attr D h Q0 s0 st0 q1 W At0) in HS1.
+                 destruct (aos_container D q1 pq W Hq1) as [E|E].
+                 ++ subst q1. destruct (wf_parent_container D q pq W Hpq) as [Hc _].
+                    apply container_not_attr in Hc. congruence.
+                 ++ apply container_not_attr in E. congruence.
+            * intros g _ Hokg Hl. destruct (parent D g) as [pgg|] eqn:Hpgg; [|discriminate].
+              apply (Chk g pgg Hpgg) in Hl. exists pgg. split; [exact Hpgg|].
+              destruct sp; [exact Hl|]. exfalso. eapply NoDesc; eauto.
+        - (* nothing to the left *)
+          assert (HQ : h = HRel /\ Q = []).
+          { unfold acc in El. rewrite EP in El. eapply acc_left_none; eauto. }
+          destruct HQ as [Eh EQ]. cbn [left_check left_ok]. split; [reflexivity|].
+          intros g _ Hokg _. destruct (sstep_ok_parent st g Hokg) as [pgg Hpgg].
+          exists pgg. split; [exact Hpgg|]. rewrite Eh, EQ. destruct sp; [apply sel_rel_nil|].
+          exists pgg. split; [apply aos_self|apply sel_rel_nil]. }
+      destruct Left as [Lq Lg].
+      assert (Fq : anyF D acc st q = true).
+      { rewrite (anyF_step_ok D acc st q At Hqna). rewrite Sq, Lq. reflexivity. }
+      destruct (find_aos D (anyF D acc st) pg q Hq Fq) as [g [Fd Hqg]].
+      rewrite Fd. exists g. split; [reflexivity|].
+      apply find_some in Fd. destruct Fd as [Hgin Fg].
+      rewrite (anyF_step_ok D acc st g At (NA g Hgin)) in Fg. apply andb_prop in Fg.
+      destruct Fg as [Sg Lgg].
+      apply Lg; [exact Hqg|apply (step_ok_spec D st g W Wst); exact Sg|exact Lgg].
+Qed.
+
+Lemma sel_abs_nil : forall p, p < length D -> (Sel D HAbs [] p <-> is_root (kind_of D p) = true).
+Proof.
+  intros p Hp. unfold Sel. cbn [start sel_steps fold_left]. rewrite (root_kind D p W Hp). split.
+  - intros [a [_ [E|[]]]]. subst p. apply root_of_noparent.
+  - intros H. exists p. split; [apply aos_self|]. left. rewrite root_of_eq, H. reflexivity.
+Qed.
+
+Lemma sel_func_nil : forall fs p, (Sel D (HFunc fs) [] p <-> p < length D /\ fs p = true).
+Proof.
+  intros fs p. unfold Sel. cbn [start sel_steps fold_left]. split.
+  - intros [a [_ H]]. apply filter_In in H. destruct H as [H1 H2]. split; [|exact H2].
+    unfold nodes in H1. apply in_seq in H1. lia.
+  - intros [H1 H2]. exists p. split; [apply aos_self|]. apply filter_In. split; [|exact H2].
+    unfold nodes. apply in_seq. lia.
+Qed.
+
+Lemma parent_lt_len : forall c p, parent D c = Some p -> p < length D.
+Proof. intros c p H. pose proof (parent_lt _ _ _ H). pose proof (parent_valid _ _ _ H). lia. Qed.
+
+(* the theorem for a path, given the theorem for its proper prefixes *)
+Lemma full_step : forall P, wf_steps P -> wf_path_shape (mkPath h P) = true ->
+  (forall Q S, P = Q ++ S -> S <> [] -> (Q = [] -> h <> HRel) -> Full Q) -> Full P.
+Proof.
+  intros P Wf Sh IHfull n Hn. unfold match_path, compile. cbn [p_head p_steps].
+  destruct P as [|[sp1 st1] r].
+  - (* the head alone *)
+    cbn [compile_steps]. rewrite app_nil_r. unfold head_steps. cbn [next_is_desc].
+    destruct h as [| |fs] eqn:Eh.
     + discriminate.
-    + intros [e' [E Fe']]. inversion E. subst. congruence.
-  - cbn [snd]. split; [discriminate|]. intros [e' [E _]]. discriminate.
+    + rewrite step_pattern_one, snd_let. cbn [body snd]. symmetry. apply sel_abs_nil. exact Hn.
+    + rewrite step_pattern_one, snd_let. cbn [body head_is_anyfn snd].
+      rewrite sel_func_nil. split; [auto|intros [_ H]; exact H].
+  - pose (P := (sp1, st1) :: r).
+    pose proof (sel_split D h [] sp1 st1 r n W) as SS. cbn [app] in SS. rewrite SS. clear SS.
+    change ((sp1, st1) :: r) with P in Wf, IHfull |- *.
+    pose proof (gen_complete P Wf IHfull P [] sp1 st1 r eq_refl eq_refl n) as GC.
+    unfold acc_of in GC. cbn [cs_ctx] in GC. rewrite app_nil_r in GC.
+    pose proof (gen_sound D P W Wf ltac:(discriminate) (head_steps h P) n) as GS.
+    assert (EC : compile_steps D (head_steps h P) (last_step (head_steps h P)) P =
+                 mk D (head_steps h P) st1 (next_is_desc r) ::
+                 compile_steps D (head_steps h P ++ [mk D (head_steps h P) st1 (next_is_desc r)])
+                   (last_step (head_steps h P ++ [mk D (head_steps h P) st1 (next_is_desc r)])) r)
+      by apply compile_steps_cons.
+    set (m1 := mk D (head_steps h P) st1 (next_is_desc r)) in *.
+    assert (Um : is_user m1 = true) by apply mk_user.
+    set (rest := compile_steps D (head_steps h P ++ [m1]) (last_step (head_steps h P ++ [m1])) r) in *.
+    rewrite EC in *.
+    unfold head_steps in *. unfold P in GC, GS |- *. rewrite next_is_desc_cons in *.
+    destruct h as [| |fs] eqn:Eh.
+    + (* relative *)
+      cbn [app]. cbn [app] in GC, GS. split.
+      * intro H. destruct (user_result D m1 rest n Um) as [[g Hg]|Hg]; [|rewrite Hg in H; discriminate].
+        pose proof (GS g Hg) as R. exists g. split; [exact R|].
+        destruct (reach_first_ok D _ n g R) as [p Hp]. exists p. split; [exact Hp|].
+        destruct sp1; [apply sel_rel_nil|]. exists p. split; [apply aos_self|apply sel_rel_nil].
+      * intro H. destruct (GC H) as [g [Hg _]]. rewrite Hg. reflexivity.
+    + destruct sp1; cbn [is_desc] in *; cbn [app] in *.
+      * (* '/' *)
+        rewrite (head_generic D MRoot m1 rest n Um). split.
+        -- intros [g [c' [Hg [Hp Hb]]]]. cbn [body snd] in Hb.
+           exists g. split; [apply GS; exact Hg|]. exists c'. split; [exact Hp|].
+           apply sel_abs_nil; [eapply parent_lt_len; eauto|exact Hb].
+        -- intro H. destruct (GC H) as [g [Hg [p [Hp HS]]]].
+           exists g, p. split; [exact Hg|]. split; [exact Hp|]. cbn [body snd].
+           apply sel_abs_nil; [eapply parent_lt_len; eauto|exact HS].
+      * (* '//' *)
+        rewrite (head_generic D MAnyWP m1 rest n Um). split.
+        -- intros [g [c' [Hg [Hp _]]]].
+           exists g. split; [apply GS; exact Hg|]. exists c'. split; [exact Hp|].
+           exists (root_of D c'). split; [apply root_of_in|].
+           apply sel_abs_nil.
+           ++ pose proof (aos_le D c' _ (root_of_in D c')). pose proof (parent_lt_len g c' Hp). lia.
+           ++ apply root_kind; [exact W| |apply root_of_noparent].
+              pose proof (aos_le D c' _ (root_of_in D c')). pose proof (parent_lt_len g c' Hp). lia.
+        -- intro H. destruct (GC H) as [g [Hg [p [Hp _]]]].
+           exists g, p. split; [exact Hg|]. split; [exact Hp|]. cbn [body].
+           rewrite (container_not_attr _ (proj1 (wf_parent_container D g p W Hp))). reflexivity.
+    + destruct sp1; cbn [is_desc] in *; cbn [app] in *.
+      * rewrite (head_generic D (MFunc fs) m1 rest n Um). split.
+        -- intros [g [c' [Hg [Hp Hb]]]]. cbn [body head_is_anyfn] in Hb.
+           rewrite (user_not_anyfn m1 Um) in Hb. cbn [snd] in Hb.
+           exists g. split; [apply GS; exact Hg|]. exists c'. split; [exact Hp|].
+           apply sel_func_nil. split; [eapply parent_lt_len; eauto|exact Hb].
+        -- intro H. destruct (GC H) as [g [Hg [p [Hp HS]]]].
+           exists g, p. split; [exact Hg|]. split; [exact Hp|]. cbn [body head_is_anyfn].
+           rewrite (user_not_anyfn m1 Um). cbn [snd]. apply sel_func_nil in HS. apply HS.
+      * rewrite (head_func_desc D fs m1 rest n Um). split.
+        -- intros [g [c' [f [Hg [Hp Fd]]]]]. apply find_some in Fd. destruct Fd as [Hf Ff].
+           exists g. split; [apply GS; exact Hg|]. exists c'. split; [exact Hp|].
+           exists f. split; [exact Hf|]. apply sel_func_nil. split; [|exact Ff].
+           pose proof (aos_le D c' f Hf). pose proof (parent_lt_len g c' Hp). lia.
+        -- intro H. destruct (GC H) as [g [Hg [p [Hp [q [Hq HS]]]]]].
+           apply sel_func_nil in HS. destruct HS as [_ Fq].
+           destruct (find_aos D fs p q Hq Fq) as [f [Fd _]]. exists g, p, f. auto.
 Qed.
 
-(* soundness: no guard *)
-Theorem match_path_sound : forall D p n,
-  wf_doc D = true -> wf_path p -> n < length D ->
-  match_path D p n = true -> exists a, In a (aos D n) /\ In n (sel_path D p a).
+Theorem full_path : forall k P, length P <= k -> wf_steps P -> wf_path_shape (mkPath h P) = true -> Full P.
 Proof.
-  intros D [h steps] n W [Wf Sh] Hn. unfold match_path, compile, sel_path in *.
-  cbn [p_head p_steps] in *.
-  destruct steps as [|[sp1 st1] r].
-  - destruct h as [| |fs].
-    + discriminate.
-    + cbn [app compile_steps next_is_desc sel_steps fold_left]. rewrite step_pattern_one, snd_let.
-      cbn [body].
-      assert (E : snd (if is_root (kind_of D n) then (Some n, true) else (Some n, false)) = is_root (kind_of D n))
-        by (destruct (is_root (kind_of D n)); reflexivity).
-      rewrite E. rewrite (root_kind D n W Hn).
-      intro Hp. exists n. split; [apply aos_self|]. left. rewrite root_of_eq, Hp. reflexivity.
-    + cbn [app compile_steps next_is_desc sel_steps fold_left]. rewrite step_pattern_one, snd_let.
-      cbn [body head_is_anyfn snd].
-      intro H. exists n. split; [apply aos_self|]. apply filter_In.
-      split; [unfold nodes; apply in_seq; lia|exact H].
-  - assert (Hne : (sp1, st1) :: r <> []) by discriminate.
-    pose proof (chain_sound D _ W Wf Hne n) as Cs.
-    destruct (compile_first sp1 st1 r) as [m1 [rest [Em [Um Hany]]]].
-    destruct h as [| |fs].
-    + cbn [app]. destruct sp1; [|discriminate]. intro H. rewrite Em in *.
-      destruct (user_result D m1 rest n Um) as [[g Hg]|Hg]; [|rewrite Hg in H; discriminate].
-      pose proof (Cs g Hg) as R. destruct (reach_first_ok D _ n g R) as [a Ha].
-      exists a. split; [eapply aos_parent_in; [eapply reach_aos; exact R|exact Ha]|].
-      apply (sel_steps_reach D _ W Hne). exists g. split; [exact R|].
-      exists a. split; [exact Ha|]. left. reflexivity.
-    + destruct sp1.
-      * cbn [next_is_desc app].
-        assert (RootCase : forall g c', reach D ((SChild, st1) :: r) n g -> parent D g = Some c' ->
-                  is_root (kind_of D c') = true ->
-                  exists a, In a (aos D n) /\ In n (sel_steps D [root_of D a] ((SChild, st1) :: r))).
-        { intros g c' Hg Hp Rt.
-          pose proof (aos_parent_in D g n c' (reach_aos D _ n g Hg) Hp) as Hin.
-          assert (Hc' : c' < length D).
-          { pose proof (parent_lt _ _ _ Hp). pose proof (parent_valid _ _ _ Hp). lia. }
-          apply (root_kind D c' W Hc') in Rt.
-          exists n. split; [apply aos_self|].
-          apply (sel_steps_reach D _ W Hne). exists g. split; [exact Hg|].
-          exists c'. split; [exact Hp|]. left. symmetry. apply root_unique; assumption. }
-        pose proof Em as Em'. rewrite compile_steps_cons in Em'. rewrite Em in *.
-        rewrite (head_generic D MRoot m1 rest n Um).
-        intros [g [c' [Hg [Hp Hb]]]]. apply Cs in Hg.
-        cbn [body] in Hb.
-        destruct (is_root (kind_of D c')) eqn:Rt; [apply (RootCase g c' Hg Hp Rt)|].
-        destruct (s_attr st1) eqn:At; [inversion Em'; subst m1; discriminate|].
-        destruct (next_is_desc r) eqn:Nd; [|inversion Em'; subst m1; discriminate].
-        inversion Em'. subst m1. clear Em'.
-        apply snd_root_retry in Hb. destruct Hb as [e [Fd Fe]].
-        apply find_some in Fd. destruct Fd as [Hin Be].
-        pose proof Be as Be'. unfold below_root in Be'.
-        destruct (parent D e) as [r0|] eqn:Hpe; [|discriminate].
-        destruct (wf_parent_container D e r0 W Hpe) as [_ Hnr].
-        destruct (wf_parent_container D g c' W Hp) as [Hcc _].
-        assert (Hna : is_attr (kind_of D e) = false).
-        { destruct (aos_container D e c' W Hin) as [E|E]; [subst|]; apply container_not_attr; assumption. }
-        assert (S : step_ok D (s_attr st1) (s_test st1) (s_preds st1) e = true).
-        { unfold step_ok. rewrite At, Hna, Hnr. exact Fe. }
-        inversion_clear Wf as [|? ? Wst Wr]. cbn [snd] in Wst.
-        apply (step_ok_spec D st1 e W Wst) in S.
-        destruct r as [|[[|] st2] r']; try discriminate.
-        assert (Re : reach D ((SChild, st1) :: (SDesc, st2) :: r') n e).
-        { cbn [reach] in Hg |- *. destruct Hg as [_ [c2 [R2 [p2 [Hp2 Hanc]]]]].
-          split; [exact S|]. exists c2. split; [exact R2|]. exists p2. split; [exact Hp2|].
-          eapply aos_trans; [|exact Hanc]. eapply aos_up; [exact Hp|exact Hin]. }
-        apply (RootCase e r0 Re Hpe Be').
-      * cbn [next_is_desc app]. rewrite Em in *.
-        rewrite (head_generic D MAnyWP m1 rest n Um).
-        intros [g [c' [Hg [Hp Hb]]]]. apply Cs in Hg.
-        pose proof (aos_parent_in D g n c' (reach_aos D _ n g Hg) Hp) as Hin.
-        exists n. split; [apply aos_self|].
-        apply (sel_steps_reach D _ W Hne). exists g. split; [exact Hg|].
-        exists c'. split; [exact Hp|]. cbn [expand flat_map]. rewrite app_nil_r.
-        apply in_dos. split.
-        -- pose proof (parent_lt _ _ _ Hp). pose proof (parent_valid _ _ _ Hp). lia.
-        -- right. split.
-           ++ apply container_not_attr. apply (wf_parent_container D g c' W Hp).
-           ++ rewrite <- (root_of_anc D n c' Hin). apply root_of_in.
-    + destruct sp1.
-      * cbn [next_is_desc app]. rewrite Em in *.
-        rewrite (head_generic D (MFunc fs) m1 rest n Um).
-        intros [g [c' [Hg [Hp Hb]]]]. apply Cs in Hg.
-        cbn [body head_is_anyfn] in Hb. rewrite (user_not_anyfn m1 Um) in Hb. cbn [snd] in Hb.
-        exists n. split; [apply aos_self|].
-        apply (sel_steps_reach D _ W Hne). exists g. split; [exact Hg|].
-        exists c'. split; [exact Hp|]. cbn [expand]. apply filter_In. split; [|exact Hb].
-        unfold nodes. apply in_seq.
-        pose proof (parent_lt _ _ _ Hp). pose proof (parent_valid _ _ _ Hp). lia.
-      * cbn [next_is_desc app]. rewrite Em in *.
-        rewrite (head_func_desc D fs m1 rest n Um).
-        intros [g [c' [f [Hg [Hp Fd]]]]]. apply Cs in Hg. apply find_some in Fd.
-        destruct Fd as [Hf Ff].
-        exists n. split; [apply aos_self|].
-        apply (sel_steps_reach D _ W Hne). exists g. split; [exact Hg|].
-        exists c'. split; [exact Hp|]. cbn [expand]. apply in_flat_map.
-        assert (Hc' : c' < length D).
-        { pose proof (parent_lt _ _ _ Hp). pose proof (parent_valid _ _ _ Hp). lia. }
-        exists f. split.
-        -- apply filter_In. split; [|exact Ff]. unfold nodes. apply in_seq.
-           pose proof (aos_le D c' f Hf). lia.
-        -- apply in_dos. split; [exact Hc'|]. right. split; [|exact Hf].
-           apply container_not_attr. apply (wf_parent_container D g c' W Hp).
+  induction k as [|k IH]; intros P Hk Wf Sh.
+  - destruct P; [|cbn in Hk; lia]. apply full_step; try assumption.
+    intros Q S E Hne _. destruct Q, S; try discriminate. congruence.
+  - apply full_step; try assumption.
+    intros Q S E Hne HQ. apply IH.
+    + subst P. rewrite app_length in Hk. destruct S; [congruence|]. cbn [length] in Hk. lia.
+    + subst P. unfold wf_steps in *. apply Forall_app in Wf. apply Wf.
+    + subst P. unfold wf_path_shape in *. cbn [p_head p_steps] in *.
+      destruct h as [| |fs]; try reflexivity.
+      destruct Q as [|[s st] Q]; [exfalso; apply HQ; reflexivity|]. cbn [app] in Sh. exact Sh.
 Qed.
 
-(* completeness: under the guard *)
-Theorem match_path_complete : forall D p n,
-  wf_doc D = true -> wf_path p -> no_left_of_any p = true -> n < length D ->
-  (exists a, In a (aos D n) /\ In n (sel_path D p a)) -> match_path D p n = true.
-Proof.
-  intros D [h steps] n W [Wf Sh] G Hn. unfold match_path, compile, sel_path, no_left_of_any in *.
-  cbn [p_head p_steps] in *.
-  destruct steps as [|[sp1 st1] r].
-  - destruct h as [| |fs].
-    + discriminate.
-    + cbn [app compile_steps next_is_desc sel_steps fold_left]. rewrite step_pattern_one, snd_let.
-      cbn [body].
-      assert (E : snd (if is_root (kind_of D n) then (Some n, true) else (Some n, false)) = is_root (kind_of D n))
-        by (destruct (is_root (kind_of D n)); reflexivity).
-      rewrite E. rewrite (root_kind D n W Hn).
-      intros [a [Ha [E'|[]]]]. subst n. apply root_of_noparent.
-    + cbn [app compile_steps next_is_desc sel_steps fold_left]. rewrite step_pattern_one, snd_let.
-      cbn [body head_is_anyfn snd].
-      intros [a [_ H]]. apply filter_In in H. apply H.
-  - assert (Hne : (sp1, st1) :: r <> []) by discriminate.
-    pose proof (chain_sound D _ W Wf Hne n) as Cs.
-    destruct (compile_first sp1 st1 r) as [m1 [rest [Em [Um Hany]]]].
-    destruct h as [| |fs].
-    + cbn [app]. destruct sp1; [|discriminate].
-      destruct (chain_any D _ W Wf Hne G n) as [_ Cb].
-      intros [a [_ H]]. apply (sel_steps_reach D _ W Hne) in H.
-      destruct H as [c [R _]]. destruct (Cb c R) as [g [Hg _]]. rewrite Hg. reflexivity.
-    + destruct sp1.
-      * cbn [next_is_desc app].
-        pose proof Em as Em'. rewrite compile_steps_cons in Em'. rewrite Em in *.
-        rewrite (head_generic D MRoot m1 rest n Um).
-        intros [a [Ha H]]. apply (sel_steps_reach D _ W Hne) in H.
-        destruct H as [c [R [p [Hp [E|[]]]]]]. subst p.
-        assert (Hra : root_of D a < length D).
-        { pose proof (parent_lt _ _ _ Hp). pose proof (parent_valid _ _ _ Hp). lia. }
-        pose proof (proj2 (root_kind D _ W Hra) (root_of_noparent D a)) as Rk.
-        destruct (next_is_desc r) eqn:Nd.
-        -- (* '/a//...' *)
-           destruct (chain_any D _ W Wf Hne G n) as [_ Cb].
-           destruct (Cb c R) as [g [Hg Hcg]]. rewrite Em in Hg.
-           pose proof (Cs g Hg) as Rg. destruct (reach_first_ok D _ n g Rg) as [c' Hp'].
-           exists g, c'. split; [exact Hg|]. split; [exact Hp'|].
-           cbn [body]. destruct (is_root (kind_of D c')) eqn:Rt; [reflexivity|].
-           destruct r as [|[[|] st2] r']; try discriminate.
-           destruct (s_attr st1) eqn:At.
-           { exfalso. eapply attr_before_desc_unreachable; eauto. }
-           cbn [next_is_desc] in Em'. inversion Em'. subst m1.
-           apply snd_root_retry.
-           assert (Bc : below_root D c = true) by (unfold below_root; rewrite Hp; exact Rk).
-           assert (Hcc' : In c (aos D c')).
-           { apply aos_cases in Hcg. destruct Hcg as [E|[q [Hq Hcg]]].
-             - subst g. rewrite Hp in Hp'. inversion Hp'. subst c'. congruence.
-             - rewrite Hp' in Hq. inversion Hq. subst q. exact Hcg. }
-           destruct (find_aos D (below_root D) c' c Hcc' Bc) as [e [Fd Hce]].
-           pose proof Fd as Fd'. apply find_some in Fd'. destruct Fd' as [_ Be].
-           assert (Ece : c = e) by (apply (below_root_top D e c W Be Hce); congruence).
-           subst e. exists c. split; [exact Fd|].
-           inversion_clear Wf as [|? ? Wst Wr]. cbn [snd] in Wst.
-           cbn [reach] in R. destruct R as [Sok _].
-           apply (step_ok_spec D st1 c W Wst) in Sok. unfold step_ok in Sok. rewrite At in Sok.
-           apply andb_prop in Sok. destruct Sok as [S1 S2].
-           apply andb_prop in S1. destruct S1 as [_ S1]. rewrite S1, S2. reflexivity.
-        -- pose proof (desc_no_next_all_child r G Nd) as Gall.
-           pose proof (chain_child D _ W Wf Hne Gall n) as C.
-           exists c, (root_of D a). split; [rewrite <- Em; apply C; exact R|]. split; [exact Hp|].
-           cbn [body]. rewrite Rk. reflexivity.
-      * cbn [next_is_desc app]. cbn [desc_then_child] in G.
-        destruct (chain_any D _ W Wf Hne G n) as [_ Cb]. rewrite Em in *.
-        rewrite (head_generic D MAnyWP m1 rest n Um).
-        intros [a [Ha H]]. apply (sel_steps_reach D _ W Hne) in H.
-        destruct H as [c [R _]]. destruct (Cb c R) as [g [Hg _]].
-        pose proof (Cs g Hg) as Rg. destruct (reach_first_ok D _ n g Rg) as [c' Hp].
-        exists g, c'. split; [exact Hg|]. split; [exact Hp|].
-        cbn [body]. rewrite (container_not_attr _ (proj1 (wf_parent_container D g c' W Hp))).
-        reflexivity.
-    + destruct sp1.
-      * cbn [next_is_desc app]. cbn [desc_then_child] in G.
-        pose proof (chain_child D _ W Wf Hne G n) as C. rewrite Em in *.
-        rewrite (head_generic D (MFunc fs) m1 rest n Um).
-        intros [a [Ha H]]. apply (sel_steps_reach D _ W Hne) in H.
-        destruct H as [c [R [p [Hp Hin]]]]. cbn [expand] in Hin. apply filter_In in Hin.
-        exists c, p. split; [apply C; exact R|]. split; [exact Hp|].
-        cbn [body head_is_anyfn]. rewrite (user_not_anyfn m1 Um). cbn [snd]. apply Hin.
-      * cbn [next_is_desc app]. cbn [desc_then_child] in G.
-        destruct (chain_any D _ W Wf Hne G n) as [_ Cb]. rewrite Em in *.
-        rewrite (head_func_desc D fs m1 rest n Um).
-        intros [a [Ha H]]. apply (sel_steps_reach D _ W Hne) in H.
-        destruct H as [c [R [p [Hp Hin]]]]. cbn [expand] in Hin. apply in_flat_map in Hin.
-        destruct Hin as [f [Hf Hd]]. apply filter_In in Hf. destruct Hf as [_ Ff].
-        assert (Hfp : In f (aos D p)).
-        { apply in_dos in Hd. destruct Hd as [_ [Hd|[_ Hd]]]; [subst; apply aos_self|exact Hd]. }
-        destruct (Cb c R) as [g [Hg Hcg]].
-        pose proof (Cs g Hg) as Rg. destruct (reach_first_ok D _ n g Rg) as [c' Hp'].
-        assert (Hfc : In f (aos D c')).
-        { apply aos_cases in Hcg. destruct Hcg as [E|[q [Hq Hcg]]].
-          - subst g. rewrite Hp in Hp'. inversion Hp'. subst. exact Hfp.
-          - rewrite Hp' in Hq. inversion Hq. subst q.
-            eapply aos_trans; [exact Hfp|]. eapply aos_parent_in; eauto. }
-        destruct (find_aos D fs c' f Hfc Ff) as [f' [Fd _]].
-        exists g, c', f'. auto.
-Qed.
+End Path.
 
+(** * a whole path, unions *)
 Theorem match_path_iff : forall D p n,
-  wf_doc D = true -> wf_path p -> no_left_of_any p = true -> n < length D ->
+  wf_doc D = true -> wf_path p -> n < length D ->
   (match_path D p n = true <-> exists a, In a (aos D n) /\ In n (sel_path D p a)).
 Proof.
-  intros D p n W Wp G Hn. split.
-  - apply match_path_sound; assumption.
-  - apply match_path_complete; assumption.
+  intros D [h P] n W [Wf Sh] Hn. cbn [p_steps] in Wf.
+  pose proof (full_path D W h (length P) P (le_n _) Wf Sh n Hn) as F.
+  rewrite F. unfold Sel. split; intros [a [Ha H]]; exists a; (split; [exact Ha|]).
+  - rewrite sel_path_start. exact H.
+  - rewrite sel_path_start in H. exact H.
 Qed.
 
-(** * unions *)
 Definition wf_pattern (P : pattern) : Prop := forall p, In p P -> wf_path p.
 
 Theorem matches_iff_selects : forall D P n,
-  wf_doc D = true -> wf_pattern P -> guard P = true -> n < length D ->
+  wf_doc D = true -> wf_pattern P -> n < length D ->
   (matches D P n = true <-> selects D P n).
 Proof.
-  intros D P n W Wp G Hn. unfold matches, selects. rewrite existsb_exists.
-  unfold guard in G. rewrite forallb_forall in G. split.
-  - intros [p [Hp H]]. apply (match_path_iff D p n W (Wp p Hp) (G p Hp) Hn) in H.
+  intros D P n W Wp Hn. unfold matches, selects. rewrite existsb_exists. split.
+  - intros [p [Hp H]]. apply (match_path_iff D p n W (Wp p Hp) Hn) in H.
     destruct H as [a [Ha H]]. exists p, a. auto.
   - intros [p [a [Hp [Ha H]]]]. exists p. split; [exact Hp|].
-    apply (match_path_iff D p n W (Wp p Hp) (G p Hp) Hn). exists a. auto.
-Qed.
-
-Theorem matches_sound : forall D P n,
-  wf_doc D = true -> wf_pattern P -> n < length D ->
-  matches D P n = true -> selects D P n.
-Proof.
-  intros D P n W Wp Hn H. unfold matches in H. apply existsb_exists in H.
-  destruct H as [p [Hp H]]. apply (match_path_sound D p n W (Wp p Hp) Hn) in H.
-  destruct H as [a [Ha H]]. exists p, a. auto.
+    apply (match_path_iff D p n W (Wp p Hp) Hn). exists a. auto.
 Qed.
 
 Lemma selectsb_spec : forall D P n, selectsb D P n = true <-> selects D P n.
@@ -429,17 +733,18 @@ Proof.
   destruct Hq as [y [E _]]. subst q. apply cpred_wf.
 Qed.
 
+
 Theorem c_match_iff_select : forall D P n,
-  wf_doc D = true -> c_shape D P = true -> c_guard D P = true -> n < length D ->
+  wf_doc D = true -> c_shape D P = true -> n < length D ->
   (c_match D P n = true <-> selects D (map (path_of D) P) n).
 Proof.
-  intros D P n W Sh G Hn. unfold c_match. apply matches_iff_selects; try assumption.
+  intros D P n W Sh Hn. unfold c_match. apply matches_iff_selects; try assumption.
   intros p Hp. apply in_map_iff in Hp. destruct Hp as [x [E Hx]]. subst p.
   apply path_of_wf. unfold c_shape in Sh. rewrite forallb_forall in Sh. apply Sh.
   apply in_map. exact Hx.
 Qed.
 
-(** * outside the guard *)
+(** * the former counterexamples *)
 Definition el (n : nat) (p : nat) : nrec := mkN (KElem n) (Some p).
 Definition name_step (n : nat) : sstep := mkS false (TName n) [].
 
@@ -452,11 +757,10 @@ Definition k15_doc : doc := [mkN KRoot None; el 2 0; el 0 1; el 5 2; el 0 3; el 
 Definition k15_pat : pattern :=
   [mkPath HRel [(SChild, name_step 2); (SChild, name_step 0); (SDesc, name_step 1)]].
 
-(* K14 (repaired): the pattern is inside the guard now, and nothing matches *)
 Lemma k14_facts : wf_doc k14_doc = true /\ matches k14_doc k14_pat 3 = false /\
-                  selectsb k14_doc k14_pat 3 = false /\ guard k14_pat = true.
+                  selectsb k14_doc k14_pat 3 = false.
 Proof. vm_compute. repeat split. Qed.
 
-Lemma k15_facts : wf_doc k15_doc = true /\ matches k15_doc k15_pat 5 = false /\
-                  selectsb k15_doc k15_pat 5 = true /\ guard k15_pat = false.
+Lemma k15_facts : wf_doc k15_doc = true /\ matches k15_doc k15_pat 5 = true /\
+                  selectsb k15_doc k15_pat 5 = true.
 Proof. vm_compute. repeat split. Qed.
